@@ -327,6 +327,21 @@ def _run_case(ck, desc):
                         j_ = int(np.argmax(kv[:-1] - kv[1:]))
                         ck.violation("monotone-in-own-saturation", {"phase": kn, "across_records": True, "lower_saturation": sa_[o_[j_]].tolist(), "higher_saturation": sa_[o_[j_ + 1]].tolist(), "k": [float(kv[j_]), float(kv[j_ + 1])]}, desc)
                 ck.count("batches_sorted_by_own_saturation")
+        if kind == "records":
+            # a batch in which nothing is left after the caller's own selection (cells with gas above
+            # critical: none) holds no inadmissible record: accepted, and nothing comes back
+            full_ = _records(desc["sats"], desc.get("order", 0))
+            for label_, empty_ in (("mask with no hit", full_[np.zeros(len(full_), dtype=bool)]), ("zero-length array", np.zeros(0, dtype=full_.dtype)), ("empty slice", full_[:0])):
+                try:
+                    r0_ = relative_permeabilities(empty_, params)
+                    n0_ = [len(np.asarray(r0_[n_])) for n_ in NAMES]
+                except Exception as e:  # noqa: BLE001
+                    ck.violation("admissible-input-accepted", {"batch": f"no records ({label_})", "raised": repr(e)[:200]}, desc)
+                    break
+                if any(n0_):
+                    ck.violation("one-result-per-record", {"batch": f"no records ({label_})", "results": n0_}, desc)
+                ck.count("empty_batches_accepted")
+            EVENTS.clear()
         if kind == "records" and len(desc["sats"]) >= 1:
             # twin call: the same records with every residual raised by 2e-6 right afterwards - phases
             # that sat within 1e-6 above their residual are now at or below it and must read exactly 0
